@@ -62,7 +62,9 @@ func (node *Node) resolveInputs(fork ForkId, keepSplit bool) ([]string, Marshale
 	result := make(MarshalerMap, len(node.call.ResolvedInputs()))
 	var errs syntax.ErrorList
 	var mapped []string
-	for k, v := range node.call.ResolvedInputs() {
+	inputs := node.call.ResolvedInputs()
+	for _, k := range sortedKeys(inputs) {
+		v := inputs[k]
 		_, r, err := node.top.resolve(v.Exp, v.Type, fork, readSize)
 		if err != nil {
 			if keepSplit {
@@ -949,7 +951,8 @@ func (args LazyArgumentMap) Path(p string, source, dest syntax.Type,
 		}
 		result := make(MarshalerMap, len(args))
 		var errs syntax.ErrorList
-		for k, v := range args {
+		for _, k := range sortedKeys(args) {
+			v := args[k]
 			elem, err := resolvePath(v, p, t.Elem, dest, lookup)
 			result[k] = elem
 			if err != nil {
@@ -1078,7 +1081,8 @@ func (args LazyArgumentMap) filter(t syntax.Type,
 	case *syntax.TypedMapType:
 		var errs syntax.ErrorList
 		result := make(MarshalerMap, len(args))
-		for k, v := range args {
+		for _, k := range sortedKeys(args) {
+			v := args[k]
 			b, _, err := t.Elem.FilterJson(v, lookup)
 			if err != nil {
 				errs = append(errs, &elementError{
@@ -1316,7 +1320,8 @@ func (node *TopNode) resolveMap(binding *syntax.MapExp, t syntax.Type,
 	var errs syntax.ErrorList
 	switch t := t.(type) {
 	case *syntax.TypedMapType:
-		for key, exp := range binding.Value {
+		for _, key := range sortedKeys(binding.Value) {
+			exp := binding.Value[key]
 			if ready, v, err := node.resolve(exp, t.Elem,
 				fork, readSize); err != nil {
 				allReady = ready && allReady
